@@ -159,4 +159,15 @@ def r4_no_bypass(run, tree):
                    "with operation='mean' using the default 'sum')" % opt)
 
 
-RULES = [r1_immutability, r2_precedence, r3_hidden_state, r4_no_bypass]
+def r5_per_layer_effect(run, tree):
+    run.rule("C19.R5", "the effective option of a layer acts on that layer only, end to end: histogram2d and map folded with layers whose "
+             "effective operations differ (layer-level against call-level, mean next to sum): 'mean' divides exactly the slots of the layers "
+             "that ask for it; a Layer reused by a second call with another call-level operation is processed by each call's own", "D7 folds of plot/histogram2d.py::histogram2d and plot/map.py::map", "", floor=7)
+    from . import hist_folds as hf
+    from . import map_folds as mf
+    hf.check_hist2d(run, tree, aspects=("layers",))
+    hf.check_hist2d_history(run, tree)
+    mf.check_map(run, tree, aspects=("rendered",))
+
+
+RULES = [r1_immutability, r2_precedence, r3_hidden_state, r4_no_bypass, r5_per_layer_effect]
